@@ -15,6 +15,9 @@ the contract to attach and the proof hints to inject.
                                      `//# tag KNOWN <finding-id>` marks an expected-fail clause
     @before `tokens` [#n]            following lines are injected before the n-th occurrence of the token sequence
     @after `tokens` [#n]
+    @after-stmt `tokens` [#n]        injected after the end of the STATEMENT that contains the n-th occurrence of the tokens
+    @body-of-stmt `tokens` [#n]      injected at the start of the first block `{` that the statement opens after the tokens (the body of
+                                     `if <..tokens..> {`, `match <..tokens..> {`)
     @before-stmt `tokens` [#n]       injected before the STATEMENT that contains the n-th occurrence of the tokens (the call may be
                                      wrapped in `if let Err(e) = ..`, `match ..`, `..?;` - the hint does not care)
     @before? / @after?               the same, but the injection is skipped when the anchor does not occur (used for the
@@ -61,7 +64,7 @@ class Unit:
         self.hoists = {}
 
 
-INJ = re.compile(r"@(before-stmt|before\??|after\??)\s+`(.*)`\s*(?:#(\d+))?\s*$")
+INJ = re.compile(r"@(before-stmt|after-stmt|body-of-stmt|before\??|after\??)\s+`(.*)`\s*(?:#(\d+))?\s*$")
 
 
 def parse_recipe(path, name):
